@@ -60,6 +60,31 @@ func RuleKWeightsSum(c *core.Ctx) {
 				n++
 				key := core.FuncName(fn) + ":update of Value.Weights adds"
 				if accumulates(p, x) {
+					// and nothing but loop tests and the lazy initialisation's nil test decides
+					// whether the addition happens
+					skip := ""
+					for _, b := range fn.Blocks {
+						iff, ok := b.Instrs[len(b.Instrs)-1].(*ssa.If)
+						if !ok {
+							continue
+						}
+						if ctl, _ := core.Controls(b, x.Block()); !ctl || core.IsLoopExitTest(b, x.Block()) || isLoopHeaderOf(fn, b, x.Block()) {
+							continue
+						}
+						if bo, ok := iff.Cond.(*ssa.BinOp); ok && (core.IsNilConst(bo.X) || core.IsNilConst(bo.Y)) {
+							continue
+						}
+						if ex, ok := iff.Cond.(*ssa.Extract); ok {
+							if _, isNext := ex.Tuple.(*ssa.Next); isNext {
+								continue // range over a map
+							}
+						}
+						skip = describeValue(p, iff.Cond)
+					}
+					if skip != "" {
+						c.Ob(rule, key, x.Pos(), core.FuncName(fn), core.Violated, "whether a weight is added to the node depends on "+skip+": some members are left out of their group's weight, so groups are not the sum of their members")
+						return
+					}
 					c.Ob(rule, key, x.Pos(), core.FuncName(fn), core.Discharged, "m[k] = m[k] + x on the same map and key")
 				} else {
 					c.Ob(rule, key, x.Pos(), core.FuncName(fn), core.Violated, "an entry of a node's Weights is overwritten, not added to: two commodities (or two children) mapped to the same row and date leave only the last one, so a group's weight is not the sum of its members and the top level does not reach 100%")
@@ -403,4 +428,120 @@ func sumHelperShape(p *core.Prog, fn *ssa.Function) (mapParam, keysParam int, ok
 		visit(ret.Results[0])
 	})
 	return mapParam, keysParam, good && nret == 1 && mapParam >= 0 && keysParam >= 0
+}
+
+
+// isLoopHeaderOf: b is the header of a loop of fn that contains target (its
+// test merely continues the iteration).
+func isLoopHeaderOf(fn *ssa.Function, b, target *ssa.BasicBlock) bool {
+	for h, body := range loopsOf(fn) {
+		if h == b && body[target] {
+			return true
+		}
+	}
+	return false
+}
+
+// RuleKDayReset — state that a stage accumulates within a day starts afresh
+// every day. In the stages of the performance calculator, every state
+// variable (captured variable or field of the stage's state object) that the
+// Transaction or Posting callback updates by accumulation (x = x ± v) and the
+// DayEnd callback reads is assigned in DayStart on every path. An accumulator
+// reset only under a condition carries one day's flows into all later days.
+func RuleKDayReset(c *core.Ctx) {
+	const rule = "K-day-reset"
+	p := c.P
+	n := 0
+	for _, ctor := range p.SrcFuncs() {
+		if core.PkgPathOf(ctor) != pkgPerformance || ctor.Parent() != nil {
+			continue
+		}
+		var lit ssa.Value
+		core.EachInstr(ctor, func(ins ssa.Instruction) {
+			if ret, ok := ins.(*ssa.Return); ok && len(ret.Results) == 1 && !core.IsNilConst(ret.Results[0]) {
+				if pt, ok := ret.Results[0].Type().Underlying().(*types.Pointer); ok && isNamed(pt.Elem(), p.NamedType(pkgJournal, "Processor")) {
+					lit = ret.Results[0]
+				}
+			}
+		})
+		if lit == nil {
+			continue
+		}
+		cbs := processorLiteral(p, lit)
+		dayStart, dayEnd := cbs["DayStart"], cbs["DayEnd"]
+		if dayEnd == nil {
+			continue
+		}
+		// accumulated state
+		accum := map[any]token.Pos{}
+		for _, name := range []string{"Transaction", "Posting"} {
+			cb := cbs[name]
+			if cb == nil {
+				continue
+			}
+			reach := p.ReachLexical(cb)
+			for g := range reach {
+				if core.PkgPathOf(g) != pkgPerformance {
+					continue
+				}
+				core.EachInstr(g, func(ins ssa.Instruction) {
+					st, ok := ins.(*ssa.Store)
+					if !ok {
+						return
+					}
+					loc := stateLoc(st.Addr)
+					if loc == nil {
+						return
+					}
+					bo, ok := st.Val.(*ssa.BinOp)
+					if !ok || (bo.Op != token.ADD && bo.Op != token.SUB) {
+						return
+					}
+					if ld, ok := bo.X.(*ssa.UnOp); ok && stateLoc(ld.X) == loc {
+						accum[loc] = st.Pos()
+					}
+				})
+			}
+		}
+		for loc, pos := range accum {
+			// read by DayEnd?
+			read := false
+			core.EachInstr(dayEnd, func(ins ssa.Instruction) {
+				if ld, ok := ins.(*ssa.UnOp); ok && ld.Op == token.MUL && stateLoc(ld.X) == loc {
+					read = true
+				}
+			})
+			if !read {
+				continue
+			}
+			n++
+			name := "state"
+			if v, ok := loc.(ssa.Value); ok {
+				name = v.Name()
+				if al, ok := v.(*ssa.Alloc); ok && al.Comment != "" {
+					name = al.Comment
+				}
+			} else if f, ok := loc.(*types.Var); ok {
+				name = f.Name()
+			}
+			key := fmt.Sprintf("%s:accumulator %s is reset at the start of every day", core.FuncName(ctor), name)
+			if dayStart == nil {
+				c.Ob(rule, key, pos, core.FuncName(ctor), core.Violated, "the stage accumulates "+name+" within a day and reads it at the end of the day, but has no DayStart callback that resets it")
+				continue
+			}
+			esc, cnt := mustPass(p, dayStart, func(ins ssa.Instruction) bool {
+				st, ok := ins.(*ssa.Store)
+				return ok && stateLoc(st.Addr) == loc
+			})
+			switch {
+			case cnt == 0:
+				c.Ob(rule, key, pos, core.FuncName(ctor), core.Violated, "DayStart never assigns "+name+": the flows of one day are carried into every later day")
+			case esc != "":
+				c.Ob(rule, key, pos, core.FuncName(ctor), core.Violated, "DayStart does not assign "+name+" on every path ("+esc+"): on the other paths the flows of earlier days are carried into this day's figures")
+			default:
+				c.Ob(rule, key, pos, core.FuncName(ctor), core.Discharged, "assigned in DayStart on every path")
+			}
+		}
+	}
+	c.Floor(rule, 1)
 }
